@@ -166,7 +166,8 @@ Fixpoint dec_aux (fuel : nat) (n : N) (acc : str) : str :=
            let q := N.div n 10 in
            if N.eqb q 0 then (48 + d)%N :: acc else dec_aux f q ((48 + d)%N :: acc)
   end.
-Definition dec_nat (n : nat) : str := dec_aux 40 (N.of_nat n) [].
+(* str(n): one division per digit, so n + 1 steps are always enough *)
+Definition dec_nat (n : nat) : str := dec_aux (S n) (N.of_nat n) [].
 
 Definition nonempty (s : str) : bool := match s with [] => false | _ => true end.
 
